@@ -17,3 +17,10 @@ pub trait ArgVisitor {
     fn visit(&mut self, m: &ast::Method, a: &ast::Arg)
         ensures final(self).log() == old(self).log().push((*m, *a));
 }
+// mutable variant: the callback sees the node as it is when offered, may change it, but keeps its children
+// (frame assumed of the callback; proved for the closure of resolve_types: clause C05.step_frame)
+pub trait TypeMutVisitor {
+    spec fn log(&self) -> Seq<ast::Type>;
+    fn visit(&mut self, t: &mut ast::Type)
+        ensures final(self).log() == old(self).log().push(*old(t)), final(t).generic_types == old(t).generic_types;
+}
